@@ -5,9 +5,13 @@ import (
 	"encoding/binary"
 	"fmt"
 	"sort"
+	"sync/atomic"
 	"time"
 
+	"cosmossdk.io/math"
+
 	sdk "github.com/cosmos/cosmos-sdk/types"
+	authtypes "github.com/cosmos/cosmos-sdk/x/auth/types"
 	banktypes "github.com/cosmos/cosmos-sdk/x/bank/types"
 
 	ophosttypes "github.com/initia-labs/OPinit/x/ophost/types"
@@ -40,8 +44,9 @@ type c01State struct {
 }
 
 type c01Sys struct {
-	fee   bool
-	trees [2]*wtree
+	fee    bool
+	trees  [2]*wtree
+	forged atomic.Int64
 }
 
 func newC01Sys(fee bool) *c01Sys {
@@ -343,6 +348,41 @@ func (y *c01Sys) Check(s *c01State) *engine.Violation {
 			return viol("no-other-account-is-touched", "supply of %s is %d but the known accounts hold %d", d, sup, total[d])
 		}
 	}
+	return y.forgedAmountProbes(s)
+}
+
+// forgedAmountProbes: in every state where a bridge has a final first output, each leaf of its
+// tree is claimed with an amount the tree does not commit to (amount+1, amount+2^64, 2^64), on a
+// branch in which the escrow has been topped up so that it *could* pay — funds may leave an escrow
+// only for a withdrawal that is in the finalized tree, so every such claim must be refused.
+func (y *c01Sys) forgedAmountProbes(s *c01State) *engine.Violation {
+	two64 := math.NewIntFromUint64(1 << 63).MulRaw(2)
+	for b := uint64(1); b <= 2; b++ {
+		outs := s.outs[b-1]
+		t := y.trees[b-1]
+		if len(outs) == 0 || outs[0].Root != t.Name || s.ctx.BlockTime().Before(outs[0].T.Add(c01Period)) {
+			continue
+		}
+		for leaf, w := range t.Ws {
+			genuine := math.NewIntFromUint64(w.Amount)
+			for _, forged := range []math.Int{genuine.AddRaw(1), genuine.Add(two64), two64} {
+				ctx, _ := s.ctx.CacheContext()
+				top := sdk.NewCoins(sdk.NewCoin(w.Denom, forged))
+				if err := s.w.BK.MintCoins(ctx, authtypes.Minter, top); err != nil {
+					panic(err)
+				}
+				if err := s.w.BK.SendCoinsFromModuleToAccount(ctx, authtypes.Minter, ref.BridgeAddress(b), top); err != nil {
+					panic(err)
+				}
+				msg := claimMsg(w, t.Tree.Proof(leaf), 1, "bob", t.Version, t.StorageRoot[:], t.BlockHash)
+				msg.Amount = sdk.NewCoin(w.Denom, forged)
+				y.forged.Add(1)
+				if res := s.w.Deliver(ctx, msg); res.OK() {
+					return tagged(viol("escrow-pays-only-own-bridge-withdrawals", "bridge %d paid %s%s for leaf %d of its final output, which commits to %d%s", b, forged, w.Denom, leaf, w.Amount, w.Denom), "probe", "forged-amount")
+				}
+			}
+		}
+	}
 	return nil
 }
 
@@ -354,18 +394,21 @@ func init() {
 				o := opts(rc, pick(rc, 5, 7))
 				o.Deadline = rc.Start.Add(rc.Budget * time.Duration(i+1) / 2)
 				name := fmt.Sprintf("fee=%v", fee)
-				rep, err := engine.Explore[*c01State](newC01Sys(fee), o)
+				sys := newC01Sys(fee)
+				rep, err := engine.Explore[*c01State](sys, o)
 				if err != nil {
 					res.HarnessErr = err
 					return res
 				}
 				res.Absorb(name, rep)
+				res.Coverage["forged_amount_claims/"+name] = sys.forged.Load()
+				res.Require(sys.forged.Load() > 0, "%s: no forged-amount claim was ever probed", name)
 				for _, k := range []string{"Finalize/accepted", "Finalize/rejected", "Deposit/accepted", "Deposit/rejected", "CreateBridge/accepted", "BankSend/accepted"} {
 					res.Require(res.OutcomeCount(name, k) > 0, "%s: outcome %s never occurred", name, k)
 				}
 			}
 			res.Coverage["alphabet"] = "CreateBridge(2); Deposit(b∈{1,2,9}, denom∈{uxx,uyy}, amt∈{1,2}) + zero amount + unfunded sender; Propose(b, root∈{own tree, other bridge's tree}); Delete(b,1); Advance(period); Finalize(b, leaf∈{own w1, own w2, other bridge's w1}, by∈{bob,stranger}); BankSend(stranger→escrow1); UpdateProposer/UpdateChallenger(b); configuration axis: registration fee ∈ {none, 1uxx}"
-			res.Coverage["oracle"] = "ledger model of all account balances compared after every transition (and supply = sum of known accounts); records+escrow of every non-addressed bridge byte-identical; escrow decreases only by a successful finalize of the same bridge whose leaf belongs to that bridge's tree; rejected ⇒ digest unchanged (incl. under-funded escrow)"
+			res.Coverage["oracle"] = "ledger model of all account balances compared after every transition (and supply = sum of known accounts); records+escrow of every non-addressed bridge byte-identical; escrow decreases only by a successful finalize of the same bridge whose leaf belongs to that bridge's tree; rejected ⇒ digest unchanged (incl. under-funded escrow); in every state with a final output, every leaf claimed with amount+1, amount+2^64 and 2^64 against an escrow topped up to cover it is refused"
 			res.Assumptions = []string{"two trees with identical user fields that differ only in the bridge id", "bridge id 9 is never created"}
 			return res
 		},
